@@ -192,10 +192,15 @@ impl ElementMap for TransformerContext {
             let translate_y = el.get_attr("y");
             if translate_x.is_some() || translate_y.is_some() {
                 if let Some(ref mut bbox) = &mut el_bbox {
-                    el_bbox = Some(bbox.translated(
-                        translate_x.map(|tx| strp(&tx)).unwrap_or(Ok(0.))?,
-                        translate_y.map(|ty| strp(&ty)).unwrap_or(Ok(0.))?,
-                    ));
+                    // a position with units (e.g. "10px") is passed through; there is
+                    // then no bounding box in user units to offer.
+                    el_bbox = match (
+                        translate_x.map(|tx| strp(&tx)).unwrap_or(Ok(0.)),
+                        translate_y.map(|ty| strp(&ty)).unwrap_or(Ok(0.)),
+                    ) {
+                        (Ok(tx), Ok(ty)) => Some(bbox.translated(tx, ty)),
+                        _ => None,
+                    };
                 }
             }
         }
